@@ -10,6 +10,9 @@
 (* reader / scanner captures (memtable, immutable memtable, tree, time-    *)
 (* stamp) under the mutex and then reads key by key while inserts go on.   *)
 (*                                                                         *)
+(* Dev "TreePinnedBeforeState" (a seeded change, negative control): the    *)
+(* tree version is pinned before, not inside, the critical section that    *)
+(* captures the memtables - a whole flush can pass in between.             *)
 (* Dev "SnapshotAtAssignedSeq" (as found): the snapshot timestamp is the   *)
 (* last ASSIGNED sequence number.  Repaired: the last COMPLETED one.       *)
 (***************************************************************************)
@@ -83,11 +86,13 @@ FClear == /\ fpc = "clear" /\ immId' = 0 /\ fpc' = "idle"
           /\ UNCHANGED <<batches, seq, visible, memId, memC, tree, wl, wpc, wts, wmem, wleft, wcount, fts, rolls, spc, sts, smem, simm, stree, sleft, sseen, startedAt, doneAt, sdone>>
 
 (* --------------------------------- scanner -------------------------------- *)
-SSnap == /\ spc = "idle"
+SSnap == /\ spc = (IF "TreePinnedBeforeState" \in Dev THEN "pinned" ELSE "idle")
          /\ sts' = IF "SnapshotAtAssignedSeq" \in Dev THEN seq ELSE visible
-         /\ smem' = memId /\ simm' = immId /\ stree' = tree /\ sleft' = Keys /\ sseen' = <<>> /\ sdone' = doneAt
+         /\ smem' = memId /\ simm' = immId /\ stree' = (IF "TreePinnedBeforeState" \in Dev THEN stree ELSE tree) /\ sleft' = Keys /\ sseen' = <<>> /\ sdone' = doneAt
          /\ spc' = "scan"
          /\ UNCHANGED <<batches, seq, visible, memId, immId, memC, tree, wl, wpc, wts, wmem, wleft, wcount, fpc, fts, rolls, startedAt, doneAt>>
+SPin == /\ "TreePinnedBeforeState" \in Dev /\ spc = "idle" /\ spc' = "pinned" /\ stree' = tree
+        /\ UNCHANGED <<batches, seq, visible, memId, immId, memC, tree, wl, wpc, wts, wmem, wleft, wcount, fpc, fts, rolls, sts, smem, simm, sleft, sseen, startedAt, doneAt, sdone>>
 NewestIn(S, k, t) == LET c == {e \in S : e.k = k /\ e.ts <= t} IN
                      IF c = {} THEN 0 ELSE (CHOOSE e \in c : \A f \in c : f.ts <= e.ts).v
 \* the merge of memtable, immutable memtable and the tree snapshot, pruned at the snapshot timestamp
@@ -99,7 +104,7 @@ SStep == /\ spc = "scan" /\ sleft # {}
 SDone == /\ spc = "scan" /\ sleft = {} /\ spc' = "idle"
          /\ UNCHANGED <<batches, seq, visible, memId, immId, memC, tree, wl, wpc, wts, wmem, wleft, wcount, fpc, fts, rolls, sts, smem, simm, stree, sleft, sseen, startedAt, doneAt, sdone>>
 
-Next == (\E w \in W : WBegin(w) \/ WInsert(w) \/ WFinish(w)) \/ FRoll \/ FHead \/ FIngest \/ FClear \/ SSnap \/ SStep \/ SDone
+Next == (\E w \in W : WBegin(w) \/ WInsert(w) \/ WFinish(w)) \/ FRoll \/ FHead \/ FIngest \/ FClear \/ SSnap \/ SPin \/ SStep \/ SDone
 Spec == Init /\ [][Next]_vars
 
 (* -------------------------------- properties ------------------------------ *)
